@@ -439,6 +439,7 @@ pub fn bn_extras(out: &mut dyn Write, deep: bool) {
             log.op("norm", ins.clone(), None, || json!(nat_of_big(&T::b_to(&x.norm()))));
             log.op("mul_by_nonresidue", ins.clone(), None, || q_json::<T>(&T::q_mul_nr(&x)));
             log.op("is_square", ins.clone(), None, || json!(x.legendre() != -1));
+            log.op("legendre", ins.clone(), None, || json!(x.legendre()));
             log.op("lex_largest", ins.clone(), None, || json!(bool::from(x.lexicographically_largest())));
             log.op("bytes_roundtrip", ins.clone(), None, || {
                 let b = x.to_bytes();
